@@ -1,10 +1,9 @@
-\* edge emission: cmp.q starts UNSET (parameter without default); keep-sets with exactly one of two same-named definitions (quick)
-CONSTANTS N = 2  Par = {"p", "q"}  NVal = 2  NGrid = 2  MaxDepth = 2  MaxLevel = 4
+\* exhaustive: linked dimensions + unset start, copies and scopes (thorough)
+CONSTANTS N = 8  Par = {"p", "q"}  NVal = 2  NGrid = 2  MaxDepth = 2  MaxLevel = 5
           GridSlot = "stack"  PickleSerial = "fresh"  DbSerial = "max"
-CONSTANTS Keeps <- KeepsOne  Acts <- ActsParams  Parent0 <- ParentD  Cls0 <- ClsD
+CONSTANTS Keeps <- KeepsLink  Acts <- ActsLink  Parent0 <- ParentF  Cls0 <- ClsF
           ParOf <- McParOf  GridCls <- McGridCls  MatCls <- McMatCls
-          DbCls <- McDbCls  CopyCls <- McAllCls  CallsOf <- McCallsOf  Unset0 <- McUnset  Link0 <- LinkNone
-ACTION_CONSTRAINT Emit
+          DbCls <- McDbCls  CopyCls <- McAllCls  CallsOf <- McCallsOf  Unset0 <- McUnset  Link0 <- LinkF
 INIT Init
 NEXT Next
 CONSTRAINT Bound
